@@ -666,6 +666,15 @@ func (i *InsertStatement) SQL() string {
 		sb.WriteString(onConflictSQL(i.OnConflict))
 	}
 
+	if i.OnDuplicateKey != nil && len(i.OnDuplicateKey.Updates) > 0 {
+		sb.WriteString(" ON DUPLICATE KEY UPDATE ")
+		upds := make([]string, len(i.OnDuplicateKey.Updates))
+		for idx, u := range i.OnDuplicateKey.Updates {
+			upds[idx] = exprSQL(u.Column) + " = " + exprSQL(u.Value)
+		}
+		sb.WriteString(strings.Join(upds, ", "))
+	}
+
 	if len(i.Returning) > 0 {
 		sb.WriteString(" RETURNING ")
 		sb.WriteString(exprListSQL(i.Returning))
